@@ -366,7 +366,7 @@ func main() {
 		GenerateCodeVerifierString GenerateCodeChallenge ManualSignIn Validate OAuthStart
 		decodeTicketFromRequest newTicket saveSession setCookie loadSession clearCookie clearSession Save Load Clear
 		getValidatedSession refreshSessionIfNeeded needsRefresh ObtainLock ReleaseLock refreshSession validateSession sessionRefresher sessionValidator
-		CreatedAtNow IsExpired loadCookie DecodeSessionState cookieForSession setSessionCookie makeSessionCookie clearCookiesExcept SignedValue splitCookie isSessionCookieName splitCookieName Atoi LastIndex Cookies makeCookie SplitHostPort HasSuffix HasPrefix MatchString Parse IsEndpointAllowed validateRedirect Cookie joinCookies MakeCookieFromOptions
+		CreatedAtNow IsExpired loadCookie DecodeSessionState cookieForSession setSessionCookie makeSessionCookie clearCookiesExcept SignedValue splitCookie isSessionCookieName splitCookieName Atoi LastIndex Cookies makeCookie SplitHostPort HasSuffix HasPrefix MatchString Parse IsEndpointAllowed validateRedirect Cookie joinCookies MakeCookieFromOptions IsProxied Get ParseRequestURI Index isAllowedMethod isAllowedPath Fprintf EqualFold
 		isPreflightRequestAllowed isAllowedRoute isTrustedIP GetClientIP Has verifyAudience Verify Claims isValidAudience buildSessionFromClaims
 		verifyIDToken createSession redeemRefreshToken checkNonce GetClaimInto CheckNonce VerifyConnection
 		Lock Unlock RLock RUnlock StorePointer LoadPointer createHtpasswdMap ReadAll`) {
@@ -393,7 +393,10 @@ func main() {
 		{"providers/oidc.go", "OIDCProvider.createSession"}, {"providers/oidc.go", "OIDCProvider.CreateSessionFromToken"}, {"providers/oidc.go", "OIDCProvider.ValidateSession"},
 		{"providers/oidc.go", "OIDCProvider.RefreshSession"},
 		{"pkg/apis/middleware/session.go", "CreateTokenToSessionFunc"},
-		{"pkg/middleware/readynesscheck.go", "NewReadynessCheck"},
+		{"pkg/middleware/readynesscheck.go", "NewReadynessCheck"}, {"pkg/middleware/readynesscheck.go", "readynessCheck"},
+		{"oauthproxy.go", "isAllowedMethod"}, {"oauthproxy.go", "isAllowedPath"}, {"oauthproxy.go", "OAuthProxy.isAllowedRoute"}, {"oauthproxy.go", "OAuthProxy.isTrustedIP"},
+		{"pkg/requests/util/util.go", "GetRequestPath"}, {"pkg/requests/util/util.go", "GetRequestURI"}, {"pkg/requests/util/util.go", "GetRequestHost"}, {"pkg/requests/util/util.go", "GetRequestProto"},
+		{"pkg/middleware/redirect_to_https.go", "redirectToHTTPS"},
 		{"pkg/authentication/basic/htpasswd.go", "htpasswdMap.loadHTPasswdFile"}, {"pkg/authentication/basic/htpasswd.go", "htpasswdMap.Validate"},
 		{"validator.go", "UserMap.IsValid"}, {"validator.go", "UserMap.LoadAuthenticatedEmailsFile"},
 	} {
